@@ -38,18 +38,41 @@ def C03(ctx):
 PROPS = {"C01": C01, "C03": C03}
 
 
+TR_FOR_OP = {
+    "vercmp": ("Tr_Dewey", {}), "vertriple": ("Tr_Dewey", {}),
+    "patmatch": ("Tr_Pattern", {}), "best": ("Tr_Pattern", {}),
+    "reduce": ("Tr_BestMatch", {"devs": {"lb96": "KF1"}, "base_tag": "lb0"}),
+    "pkgname": ("Tr_Names", {}), "pkgpath": ("Tr_Names", {}), "depend": ("Tr_Names", {}),
+    "sumhist": ("Tr_Summary", {}), "sumparse": ("Tr_Summary", {}), "stream": ("Tr_SummaryStream", {}),
+    "distparse": ("Tr_Distinfo", {}), "distbuild": ("Tr_Distinfo", {}), "verify": ("Tr_Distinfo", {}),
+    "digest": ("Tr_Digest", {}), "algname": ("Tr_Digest", {}),
+    "plist": ("Tr_Plist", {}), "plistline": ("Tr_Plist", {}),
+    "scanindex": ("Tr_ScanIndex", {}),
+    "pkgdb": ("Tr_PkgDb", {}), "metahist": ("Tr_PkgDb", {}), "metaname": ("Tr_PkgDb", {}),
+}
+
+
 def replay(ctx, path):
-    """Re-run exactly one recorded violation against the current tree."""
+    """Re-run exactly one recorded violation against the current tree: the case's input is driven
+    into the real code again and the new observation is validated by the trace specification of
+    its operation.  Exit 1 (VIOLATION) if it still fails, 0 if the current tree conforms."""
     v = json.load(open(path))
     case = v.get("case") or {}
+    case = case.get("replay_as") or case
     op = case.get("op")
-    if not op:
-        print("replay file has no case")
+    if not op or op not in TR_FOR_OP or "in" not in case:
+        print("replay file has no replayable case (op=%r)" % op)
         return 2
+    os.makedirs(os.path.join(core.VERIF, "work", "scratch"), exist_ok=True)
     cases = os.path.join(ctx.work, "replay.cases.ndjson")
-    # the recorded observation is re-made and re-validated by the trace spec of its module
-    print(json.dumps(v, indent=1)[:3000])
-    return 0
+    with open(cases, "w") as f:
+        f.write(json.dumps({"op": op, "in": case["in"]}) + "\n")
+    module, kw = TR_FOR_OP[op]
+    if ctx.pid == "C17":
+        module, kw = "Tr_Totality", {}
+    ctx.rule = "replay of one recorded case"
+    ctx.record_validate("@cases", 1, module, module + ".cfg", name="replay", args=[cases], **kw)
+    return ctx.finish(write_evidence=False)
 
 
 def C04(ctx):
